@@ -315,6 +315,9 @@ class World:
                     ds = xyz.Runner(self.fs[ver], var_names="out").run_combos(
                         {"a": ra, "b": rb}, verbosity=0)
                     self.h.add_ds(ds, overwrite=pol)
+                    # (the caller goes on using its own dataset: what was
+                    # harvested does not follow)
+                    ds["out"].values[...] = -777.0
                 raised = None
             except Exception as e:
                 raised = e
